@@ -160,7 +160,7 @@ def evaluate(case, acc, seed_for_forms):
     results = {}
     for mode in (True, False):
         before = acc.counters["c07_judged"]
-        r1 = DiagramRule(should_only_rule=mode)
+        r1 = DiagramRule(should_only_rule=mode) if rnd.random() < 0.6 else DiagramRule(mode)  # by keyword / by position
         if mode and rnd.random() < 0.5:
             r1 = DiagramRule()  # the documented default mode
             r1.__dict__["_pta_intent_should_only"] = True
